@@ -116,6 +116,8 @@ RecOut run_recorder(const bytes &input, bool ispadding, const PipeCfg &pc);
 // ---- pure functions ----
 bytes hash_string(int alg, const bytes &m);
 // the same hasher object first digests `decoy`, then `m` (the object must reset itself between messages)
+// the digest is written into the message buffer itself, at offset out_off (b = H(b) chains, digest over the tail ...)
+bytes hash_string_inplace(int alg, const bytes &m, size_t out_off);
 bytes hash_string_reuse(int alg, const bytes &decoy, const bytes &m);
 // through filebuffer64 on a memory file positioned at `pos`, optionally with a 64-byte prefix block
 // decoy: a second filebuffer64 over these bytes is alive while `file` is hashed
@@ -130,6 +132,9 @@ int refill_capacity();
 
 bytes hmac_get(int hmode, const bytes &key, const bytes &file, size_t pos, int refill_units);
 bool hmac_cmp(int hmode, const bytes &key, const bytes &file, size_t pos, const bytes &tag64, int refill_units);
+// HMAC over a synthetic stream of `len` bytes (byte i = synth_byte(i, pat)) from position `pos` to the end, nothing
+// materialised; when cmp_tag is given, cmphmac is run on it as well
+bytes hmac_synth(int hmode, const bytes &key, uint64_t len, uint32_t pat, uint64_t pos, const bytes *cmp_tag, bool *cmp_result);
 bytes hmac_write(int hmode, const bytes &key, const bytes &file, size_t hash_mark, size_t write_mark, int refill_units);
 // ONE hmac object used for several consecutive calls (hmode, key, file, pos per call); for kind 0 the tag is
 // returned, for kind 1 the result of cmphmac against `tag64` (1 byte: 0/1)
@@ -166,6 +171,7 @@ uint8_t gmul(int u, uint8_t v); // the library's Gmul macro
 void *mode_new(bool enc, int type, const uint8_t key[16], const uint8_t iv[16]); // NULL for unknown type
 void mode_run(void *h, uint8_t block[16], int off = 0);
 void mode_free(void *h);
+void mode_run_raw(void *h, uint8_t *block); // in place, no canary copy (used from several threads at once)
 void *factory_new(const uint8_t key[16], const uint8_t iv[16]);
 void *factory_make(void *f, bool enc, int type);
 void factory_free(void *f);
